@@ -36,7 +36,7 @@ def generate(rng, tier):
     return gen.gen_case(rng, {
         "paired": True, "p_filters": 0.8, "p_redirect": 0.6, "p_untrimmed_opts": 0.6, "p_demux": 0.15,
         "p_pair_adapters": 0.15, "p_revcomp": 0.08, "p_info": 0.05, "p_rename": 0.0, "p_minimal_report": 0.05,
-        "rename_template": TEMPLATE, "allow_fasta_names_for_fastq": False, "p_stdout": 0.08, "json": False, "p_devnull": 0.1, "p_quiet": 0.04, "p_debug": 0.03,
+        "rename_template": TEMPLATE, "allow_fasta_names_for_fastq": False, "p_stdout": 0.08, "json": False, "p_devnull": 0.1, "p_empty_adapter_file": 0.25, "p_quiet": 0.04, "p_debug": 0.03,
     })
 
 
